@@ -295,6 +295,9 @@ def gen_case(rng, idx, nmax, malformed=False):
         rng.choice(list(uncaught_nodes(tree)))['raise_body'] = rng.choice(['exc', 'base'])
     if rng.random() < 0.1:
         case['empty_dicts'] = True
+    # how the optional arguments reach SynthDef: by keyword (None given explicitly), positionally, or
+    # omitted when None (the library's own default values are then used -- shared between builds?)
+    case['arg_form'] = rng.choice(['keyword', 'positional', 'omit_none', 'omit_none'])
     if rng.random() < 0.35:
         specs = []
         for p in cps:
@@ -361,7 +364,8 @@ def T(*xs):
 
 def battery():
     def case(name, tree, **kw):
-        c = {'name': name, 'tree': tree, 'specs': None, 'variants': None, 'calls': []}
+        c = {'name': name, 'tree': tree, 'specs': None, 'variants': None, 'calls': [],
+             'arg_form': ['omit_none', 'keyword', 'positional'][len(name) % 3]}
         c.update(kw)
         return c
 
